@@ -13,7 +13,7 @@ import json, os, shutil, subprocess, sys, time
 
 pid, which = sys.argv[1], sys.argv[2]
 suite = "--no-suite" not in sys.argv
-src = {"A": "/tmp/seed_%s", "B": "/tmp/seed_%s", "C": "/tmp/seed2_%s", "D": "/tmp/seed2_%s", "E": "/tmp/seed3_%s", "F": "/tmp/seed3_%s", "G": "/root/scratch/seed4_%s", "H": "/root/scratch/seed4_%s", "I": "/root/scratch/seed5_%s", "J": "/root/scratch/seed5_%s", "K": "/root/scratch/seed6_%s", "L": "/root/scratch/seed6_%s", "M": "/root/scratch/seed7_%s", "N": "/root/scratch/seed7_%s", "O": "/root/scratch/seed8_%s", "P": "/root/scratch/seed8_%s", "Q": "/root/scratch/seed9_%s", "R": "/root/scratch/seed9_%s"}[which] % pid + "/seed_out/" + which
+src = {"A": "/tmp/seed_%s", "B": "/tmp/seed_%s", "C": "/tmp/seed2_%s", "D": "/tmp/seed2_%s", "E": "/tmp/seed3_%s", "F": "/tmp/seed3_%s", "G": "/root/scratch/seed4_%s", "H": "/root/scratch/seed4_%s", "I": "/root/scratch/seed5_%s", "J": "/root/scratch/seed5_%s", "K": "/root/scratch/seed6_%s", "L": "/root/scratch/seed6_%s", "M": "/root/scratch/seed7_%s", "N": "/root/scratch/seed7_%s", "O": "/root/scratch/seed8_%s", "P": "/root/scratch/seed8_%s", "Q": "/root/scratch/seed9_%s", "R": "/root/scratch/seed9_%s", "S": "/root/scratch/seed10_%s", "T": "/root/scratch/seed10_%s"}[which] % pid + "/seed_out/" + which
 sid = "%s-%s" % (pid, which)
 wt = "/root/scratch/vseed_%s" % sid
 dst = "/verif/seeded/%s" % sid
